@@ -745,6 +745,14 @@ def r10_shared_current_node(ctx):
         yield o
 
 
+def r11_shared_element_node_linking(ctx):
+    """the message of an element-level error is shown next to its segment: the element node must be linked under the
+    segment being validated when the error is reported.  C05.R20 (shared)."""
+    from . import c05
+    for o in c05.r20_element_error_joins_the_current_segment(ctx):
+        yield o
+
+
 RULES = [
     Rule('C19.R1', 'every interpolated piece of every HTML write is constant, integer, map text or escaped', r1_escaping, floor=15),
     Rule('C19.R2', 'escape chain: & first, < and > covered', r2_escape_chain, floor=3),
@@ -755,5 +763,6 @@ RULES = [
     Rule('C19.R8', 'error iterator replayed over model trees: every loop node collected at header and trailer, second interchange included', r8_iterator_collects, floor=1),
     Rule('C19.R9', 'segment and element nodes hand every error to the report exactly once (inherited get_error_list decided per code)', r9_segment_and_element_lists, floor=2),
     Rule('C19.R10', 'shared with C05.R18: after a header / trailer the current error node is that envelope node', r10_shared_current_node, floor=6),
+    Rule('C19.R11', 'shared with C05.R20: the pending element node is linked into the current segment node', r11_shared_element_node_linking, floor=1),
     Rule('C19.R5', 'no text is escaped twice', r5_escaped_once, floor=5),
 ]
